@@ -7,6 +7,10 @@ C09 — executable model of the code that exists:
 * `rest/router/patrouter.go` : `Handle` (method / leading-slash validation, `path.Clean`, one tree per method),
                             `ServeHTTP` (Clean, own tree, else `methodsAllowed` ⇒ 405 + Allow, else 404).
 * `path.Clean` for rooted paths (drop "" and ".", ".." pops; never above the root).
+* `patRouter.notFound` / `notAllowed` (`SetNotFoundHandler`, `SetNotAllowedHandler`): `PatRouter`, `Response`.
+* `rest/server.go`, `rest/engine.go` on the path of the property: `NewServer` (options in order, after the
+  built-in `WithNotFoundHandler(nil)`), `WithNotFoundHandler` (engine wrapper), `WithNotAllowedHandler`,
+  `AddRoutes` + `WithPrefix` (`path.Join`), `engine.bindRoutes` (`router.Handle` in order, first error aborts).
 
 A Go route string `r` (what follows the leading '/') is modelled by its token list `r.splitOn "/"`
 (never empty; `""` ↦ `[""]`).  Go's `for i := range route { if route[i] == slash … }` finds the first slash,
@@ -206,5 +210,111 @@ def serve (r : Router) (method path : String) : Outcome :=
 /-- what `pathvar.Vars` shows: the map built by the `addParam` calls (a later call overwrites). -/
 def paramMap (ps : Params) : List (String × String) :=
   ps.foldl (fun m kv => (m.filter (·.1 != kv.1)) ++ [kv]) []
+
+/-! ### patRouter with custom notFound / notAllowed handlers (`SetNotFoundHandler`, `SetNotAllowedHandler`) -/
+
+/-- what sits in `patRouter.notFound`: a handler set directly (`SetNotFoundHandler(h)`), or the wrapper
+`engine.notFoundHandler(next)` that `rest.NewServer` / `rest.WithNotFoundHandler` install (`next = none`
+is `WithNotFoundHandler(nil)`: `http.NotFoundHandler()` inside the wrapper). -/
+inductive NFHandler where
+  | plain (h : H)
+  | engine (next : Option H)
+  deriving Repr, DecidableEq
+
+/-- the user handler that runs inside a not-found handler (none: only the built-in 404). -/
+def NFHandler.user : NFHandler → Option H
+  | .plain h => some h
+  | .engine next => next
+
+/-- `patRouter{trees, notFound, notAllowed}` -/
+structure PatRouter where
+  core : Router := {}
+  notFound : Option NFHandler := none
+  notAllowed : Option H := none
+
+/-- who answers a request. -/
+inductive Response where
+  | route (h : H) (params : Params)          -- `result.Item.(http.Handler).ServeHTTP`, vars through `pathvar.WithVars`
+  | customNotAllowed (h : H)                 -- `pr.notAllowed.ServeHTTP`; the router sets NO Allow header then
+  | defaultNotAllowed (allow : List String)  -- Allow header + 405
+  | customNotFound (h : NFHandler)           -- `pr.notFound.ServeHTTP`
+  | defaultNotFound                          -- `http.NotFound`
+  deriving Repr, DecidableEq
+
+/-- `patRouter.ServeHTTP` + `handleNotFound`: the decision is `serve`'s; only *who writes the reply* for
+405 / 404 depends on the custom handlers. -/
+def PatRouter.serveHTTP (pr : PatRouter) (method path : String) : Response :=
+  match serve pr.core method path with
+  | .handler h ps => .route h ps
+  | .notAllowed a =>
+    match pr.notAllowed with
+    | some h => .customNotAllowed h
+    | none => .defaultNotAllowed a
+  | .notFound =>
+    match pr.notFound with
+    | some h => .customNotFound h
+    | none => .defaultNotFound
+
+/-- `Handle` on the patRouter (handlers untouched). -/
+def PatRouter.handle (pr : PatRouter) (method path : String) (item : Option H) : Except HandleErr PatRouter :=
+  (GoZero.C09.handle pr.core method path item).map fun c => { pr with core := c }
+
+/-! ### rest.Server / engine wiring: NewServer options, AddRoutes + WithPrefix, engine.bindRoutes -/
+
+/-- `path.Join(group, p)` *before* its final `path.Clean`: the non-empty elements joined by '/'
+(`Join` returns "" when both are empty, else `Clean` of this string; `Handle` cleans again). -/
+def joinRaw (group p : String) : String := if group = "" then p else group ++ "/" ++ p
+
+/-- a registration attempt: method, path as written, handler (`none` = nil). -/
+abbrev Reg := String × String × Option H
+
+/-- one `AddRoutes(routes, opts...)` call: `pfx = some g` when `WithPrefix(g)` is among the options. -/
+structure Group where
+  pfx : Option String := none
+  routes : List Reg := []
+  deriving Repr
+
+/-- the routes of a group as stored in `engine.routes` (after `WithPrefix`). -/
+def Group.regs (g : Group) : List Reg :=
+  match g.pfx with
+  | none => g.routes
+  | some x => g.routes.map fun r => (r.1, joinRaw x r.2.1, r.2.2)
+
+inductive RunOpt where
+  | notFound (h : Option H)      -- rest.WithNotFoundHandler(h)
+  | notAllowed (h : Option H)    -- rest.WithNotAllowedHandler(h)
+  deriving Repr, DecidableEq
+
+/-- `rest.Server{ngin, router}` as far as routing goes. -/
+structure Server where
+  router : PatRouter := {}
+  groups : List Group := []      -- `engine.routes`, in `AddRoutes` order
+
+def Server.apply (s : Server) : RunOpt → Server
+  | .notFound h => { s with router := { s.router with notFound := some (.engine h) } }
+  | .notAllowed h => { s with router := { s.router with notAllowed := h } }
+
+/-- `rest.NewServer(c, opts...)`: `opts = append([]RunOption{WithNotFoundHandler(nil)}, opts...)`, applied in order. -/
+def newServer (opts : List RunOpt) : Server :=
+  (RunOpt.notFound none :: opts).foldl Server.apply {}
+
+/-- `Server.AddRoutes` → `engine.addRoutes`: appended. -/
+def Server.addRoutes (s : Server) (g : Group) : Server := { s with groups := s.groups ++ [g] }
+
+/-- `engine.bindRoutes` over the flattened route list: `router.Handle` in order, the first error aborts
+(and is what `Start` panics with); the routes bound before it stay in the router. -/
+def bindAll (r : Router) : List Reg → Router × Option HandleErr
+  | [] => (r, none)
+  | (m, p, item) :: rest =>
+    match handle r m p item with
+    | .ok r' => bindAll r' rest
+    | .error e => (r, some e)
+
+def Server.regs (s : Server) : List Reg := s.groups.flatMap Group.regs
+
+/-- `engine.bindRoutes(router)` (what `Start` does before listening). -/
+def Server.bindRoutes (s : Server) : Server × Option HandleErr :=
+  let res := bindAll s.router.core s.regs
+  ({ s with router := { s.router with core := res.1 } }, res.2)
 
 end GoZero.C09
